@@ -210,6 +210,8 @@ type snap struct {
 	Index [][]any `json:"index"`
 	WT    [][]any `json:"wt"`
 	Dirs  []string `json:"emptydirs,omitempty"`
+	// raw bytes of .git/HEAD, .git/packed-refs and every file below .git/refs
+	Raw map[string]string `json:"raw"`
 }
 
 func (e *env) commitNo(h plumbing.Hash) int64 {
@@ -273,14 +275,28 @@ func (e *env) snapshot() (lib.Out, snap) {
 			content, _ = io.ReadAll(rd)
 			rd.Close()
 		} else {
-			kind = "missing-" + kind
+			kind = "missing_" + kind
 		}
 		if en.Stage != 0 || en.SkipWorktree || en.IntentToAdd {
-			kind = "flagged-" + kind
+			kind = "flagged_" + kind
 		}
 		io_ = append(io_, lib.List(lib.Str(en.Name), lib.Sym(kind), lib.Bytes(content)))
 		s.Index = append(s.Index, []any{en.Name, kind, string(content)})
 	}
+	s.Raw = map[string]string{}
+	for _, f := range []string{"HEAD", "packed-refs"} {
+		if b, err := os.ReadFile(filepath.Join(e.dir, ".git", f)); err == nil {
+			s.Raw[f] = string(b)
+		}
+	}
+	filepath.Walk(filepath.Join(e.dir, ".git", "refs"), func(p string, fi os.FileInfo, err error) error {
+		if err == nil && fi.Mode().IsRegular() {
+			rel, _ := filepath.Rel(filepath.Join(e.dir, ".git"), p)
+			b, _ := os.ReadFile(p)
+			s.Raw[filepath.ToSlash(rel)] = string(b)
+		}
+		return nil
+	})
 	var wo []lib.Out
 	var files []fent
 	filepath.Walk(e.dir, func(p string, fi os.FileInfo, err error) error {
@@ -359,6 +375,14 @@ func (e *env) gitOut(args ...string) string {
 
 func run(c lib.Case) (lib.Out, any) {
 	base := os.Getenv("VERIF_SCRATCH")
+	if base == "" {
+		if fi, err := os.Stat("/dev/shm"); err == nil && fi.IsDir() {
+			if d, err := os.MkdirTemp("/dev/shm", "porc-probe-"); err == nil {
+				os.Remove(d)
+				base = "/dev/shm"
+			}
+		}
+	}
 	dir, err := os.MkdirTemp(base, "porc-")
 	if err != nil {
 		panic(err)
@@ -407,6 +431,10 @@ func run(c lib.Case) (lib.Out, any) {
 		e.writeWT(f)
 	}
 
+	gitMode := c.S("git")
+	if gitMode == "" {
+		gitMode = "forced"
+	}
 	var outs []lib.Out
 	type step struct {
 		Res  string `json:"res"`
@@ -463,11 +491,11 @@ func run(c lib.Case) (lib.Out, any) {
 		if err != nil {
 			st.Err = err.Error()
 		}
-		if porcelain && !c.Bool("nogit") {
+		forced := (op.S("op") == "checkout" && op.Bool("force")) || (op.S("op") == "reset" && op.S("mode") == "hard")
+		if porcelain && (gitMode == "all" || (gitMode == "forced" && forced && err == nil)) {
+			// one spawn: v2 status with the branch header carries HEAD's commit, staged and unstaged changes
 			st.Git = map[string]string{
-				"status": e.gitOut("status", "--porcelain=v1", "-z", "--untracked-files=all"),
-				"ls":     e.gitOut("ls-files", "-s", "-z"),
-				"head":   e.gitOut("rev-parse", "--verify", "-q", "HEAD"),
+				"status2": e.gitOut("status", "--porcelain=v2", "--branch", "-z", "--untracked-files=all"),
 			}
 		}
 		steps = append(steps, st)
